@@ -114,6 +114,9 @@ func normErr(err error) string {
 // valueArg builds the argument of an encoding step.
 func valueArg(st *plan.Step) interface{} {
 	ti := lookupType(st.T)
+	if hasOpt(st, "big") && st.N > 0 {
+		return bigValue(ti, st.V, st.N)
+	}
 	v := MakeValue(ti, st.V)
 	if hasOpt(st, "ptr") {
 		p := reflect.New(ti.Type())
@@ -130,6 +133,42 @@ func valueArg(st *plan.Step) interface{} {
 		return v.Elem().Interface()
 	}
 	return v.Interface()
+}
+
+// bigValue: a slice or map of n small members built from a few seeded ones
+// (the output is made of many small appends).
+func bigValue(ti *TypeInfo, seed int64, n int) interface{} {
+	t := ti.Type()
+	r := plan.NewRng(uint64(seed))
+	switch t.Kind() {
+	case reflect.Slice:
+		s := reflect.MakeSlice(t, n, n)
+		var protos []reflect.Value
+		for k := 0; k < 7; k++ {
+			e := reflect.New(t.Elem()).Elem()
+			f := &filler{r: plan.Derive(uint64(seed), uint64(k)), nodes: 250}
+			f.fill(e, 3)
+			if e.Kind() == reflect.String && e.Len() > 40 {
+				e.SetString(e.String()[:8])
+			}
+			protos = append(protos, e)
+		}
+		for i := 0; i < n; i++ {
+			s.Index(i).Set(protos[r.Intn(len(protos))])
+		}
+		return s.Interface()
+	case reflect.Map:
+		m := reflect.MakeMapWithSize(t, n)
+		for i := 0; i < n; i++ {
+			k := reflect.New(t.Key()).Elem()
+			k.SetString(fmt.Sprintf("k%05d", i))
+			e := reflect.New(t.Elem()).Elem()
+			e.SetInt(int64(i))
+			m.SetMapIndex(k, e)
+		}
+		return m.Interface()
+	}
+	return MakeValue(ti, seed).Interface()
 }
 
 func makeCyclic(seed int64) interface{} {
@@ -392,7 +431,7 @@ func (ss *sessState) doStep(i int, st *plan.Step) (obs string) {
 	// ------------------------------------------------ decoding
 	case "unmarshal", "unmarshal_ctx", "unmarshal_noescape":
 		ti := lookupType(st.T)
-		data := append([]byte(nil), st.Doc...)
+		data, tail := spareCopy(st.Doc)
 		orig := append([]byte(nil), st.Doc...)
 		p := reflect.New(ti.Type())
 		if hasOpt(st, "prefill") {
@@ -411,9 +450,15 @@ func (ss *sessState) doStep(i int, st *plan.Step) (obs string) {
 		case "unmarshal_noescape":
 			err = gojson.UnmarshalNoEscape(data, p.Interface(), decOpts(st)...)
 		}
-		if !bytes.Equal(data, orig) {
+		tailOK := true
+		for _, b := range tail {
+			if b != 0xA5 {
+				tailOK = false
+			}
+		}
+		if !bytes.Equal(data, orig) || !tailOK {
 			ss.viols = append(ss.viols, plan.Violation{Oracle: "aliasing", Where: fmt.Sprintf("session %s step %d (%s)", ss.s.ID, i, st.Op), Sig: "aliasing|input_modified",
-				Detail: fmt.Sprintf("the caller's input bytes were modified by the call: before %s after %s", short(orig), short(data))})
+				Detail: fmt.Sprintf("the caller's input bytes (or the spare capacity behind them) were modified by the call: before %s after %s", short(orig), short(data))})
 		}
 		o := fmt.Sprintf("%s err=%q val=%s", st.Op, normErr(err), DumpValue(p.Elem()))
 		ss.keepValue(i, "decoded value", p)
@@ -515,8 +560,9 @@ func (ss *sessState) doStep(i int, st *plan.Step) (obs string) {
 		case "path_string":
 			return fmt.Sprintf("path_string %q", p.PathString())
 		case "path_extract":
-			data := append([]byte(nil), st.Doc...)
+			data, tail := spareCopy(st.Doc)
 			parts, err := p.Extract(data, decOpts(st)...)
+			ss.checkInput(i, st, data, tail)
 			var sb strings.Builder
 			for k, part := range parts {
 				if k > 0 {
@@ -528,7 +574,9 @@ func (ss *sessState) doStep(i int, st *plan.Step) (obs string) {
 		case "path_unmarshal":
 			ti := lookupType(st.T)
 			dst := reflect.New(ti.Type())
-			err := p.Unmarshal(append([]byte(nil), st.Doc...), dst.Interface(), decOpts(st)...)
+			data, tail := spareCopy(st.Doc)
+			err := p.Unmarshal(data, dst.Interface(), decOpts(st)...)
+			ss.checkInput(i, st, data, tail)
 			return fmt.Sprintf("path_unmarshal err=%q val=%s", normErr(err), DumpValue(dst.Elem()))
 		default:
 			var src interface{}
@@ -574,6 +622,31 @@ func (ss *sessState) doStep(i int, st *plan.Step) (obs string) {
 		return "gc"
 	}
 	panic("unknown step op " + st.Op)
+}
+
+// spareCopy gives the call a private copy of the document with spare capacity
+// behind it (a caller's buf[:n] of a larger buffer); tail is that spare part,
+// filled with a marker.
+func spareCopy(doc []byte) (data, tail []byte) {
+	full := make([]byte, len(doc)+24)
+	copy(full, doc)
+	for i := len(doc); i < len(full); i++ {
+		full[i] = 0xA5
+	}
+	return full[:len(doc):len(full)], full[len(doc):]
+}
+
+func (ss *sessState) checkInput(i int, st *plan.Step, data, tail []byte) {
+	ok := bytes.Equal(data, st.Doc)
+	for _, b := range tail {
+		if b != 0xA5 {
+			ok = false
+		}
+	}
+	if !ok {
+		ss.viols = append(ss.viols, plan.Violation{Oracle: "aliasing", Where: fmt.Sprintf("session %s step %d (%s)", ss.s.ID, i, st.Op), Sig: "aliasing|input_modified",
+			Detail: fmt.Sprintf("the caller's document (or the spare capacity behind it) was modified by %s: document %s", st.Op, short(st.Doc))})
+	}
 }
 
 func panicClass(msg string) string {
